@@ -538,11 +538,12 @@ def r4(ctx):
         return False
     for c in reps:
         child = vf.expr(fn, c.args[1])
-        saved = [i for i in fn.all_insts() if i.op == "load" and vf.expr(fn, i["ptr"]) == ("fld", ("arg", 0), "trie_node.data") and fn.dom(i, c) and i.block.id == c.block.id]
-        st = [i for i in fn.all_insts() if i.op == "store" and vf.store_field(i) == "trie_node.data" and fn.dom(c, i) and i.block.id == c.block.id]
+        # (dominance, not "same basic block": the three statements may sit in an inlined helper)
+        saved = [i for i in fn.all_insts() if i.op == "load" and vf.expr(fn, i["ptr"]) == ("fld", ("arg", 0), "trie_node.data") and fn.dom(i, c)]
+        st = [i for i in fn.all_insts() if i.op == "store" and vf.store_field(i) == "trie_node.data" and fn.dom(c, i)]
         good = vf.expr(fn, c.args[0]) == ("arg", 0) and is_child(child) and \
-            bool(saved) and len(st) == 1 and vf.strip_casts(fn, st[0]["val"]) == saved[-1].ref and vf.expr(fn, st[0]["ptr"])[1] == child
-        nxt = [r for r in fn.calls("trie_remove") if fn.dom(c, r) and r.block.id == c.block.id]
+            bool(saved) and len(st) == 1 and any(vf.strip_casts(fn, st[0]["val"]) == sv.ref for sv in saved) and vf.expr(fn, st[0]["ptr"])[1] == child
+        nxt = [r for r in fn.calls("trie_remove") if fn.dom(c, r)]
         good = good and len(nxt) == 1 and vf.expr(fn, nxt[0].args[0]) == child
         ctx.check(good, "C02.R4", "trie_remove:pull-up@%d" % c.line, c.loc(),
                   "child's (prefix, len, data) pulled into the node, the node's old data block handed to the child, then the child is removed", key="C02.R4:trie_remove:pull-up")
